@@ -16,6 +16,9 @@ DBAPI connection (in-transaction) / an independent observer connection (committe
       (so no row was written for it) is reported as
       ``collection-member-dropped-from-session-not-inserted``;
   (e) every row is owned by some live object (all rows are created by the generator);
+  (g) the rows themselves are referentially intact (``PRAGMA foreign_key_check``); about half
+      of the histories run with foreign_keys=OFF so that a row the flush leaves dangling is
+      seen here instead of being vetoed by the database (a vetoed flush is C31's business);
   (f) at commit: a brand-new Session on a separate engine loads an equivalent graph
       (class, column values, many-to-one keys, collection membership).
 
@@ -123,15 +126,19 @@ def judge(ctx, rig, R, where, ops, knobs, reader=None, fresh_snap=None):
     return snap
 
 
-def run_history(ctx, R, zoo, tpl, knobs, eoc, opsrc, maxops):
-    """opsrc(gen) yields ops to try; returns nothing, reports through ctx."""
+def run_history(ctx, R, zoo, tpl, knobs, eoc, opsrc, maxops, fk=True):
+    """opsrc(gen) yields ops to try; returns nothing, reports through ctx.  ``fk=False``: the
+    database enforces no foreign key, so a row left dangling by the flush is not vetoed
+    (IntegrityError -> history not judged) but seen by relation (g)."""
     import sqlalchemy as sa
 
-    rig = R.Rig(zoo, tpl, ctx.tmppath(".db"), expire_on_commit=eoc)
+    rig = R.Rig(zoo, tpl, ctx.tmppath(".db"), expire_on_commit=eoc, fk=fk)
+    if not fk:
+        ctx.count("histories_without_fk_enforcement")
     it = R.Interp(rig)
     ops = []
     kinds = set()
-    kd = {"knobs": knobs, "expire_on_commit": eoc}
+    kd = {"knobs": knobs, "expire_on_commit": eoc, "fk": fk}
     aborted = None
     try:
         for op in opsrc(rig):
@@ -226,6 +233,24 @@ Z3_ALPHA = [
 ]
 
 
+# the self-referential tree with its outside relatives (tag many-to-many, referencing NRef, owning NOwner)
+Z2_BASE = [
+    ["new", "Node", 0, {"label": "n0"}, {"parent": None}],
+    ["new", "Node", 1, {"label": "n1"}, {"parent": 0}],
+    ["new", "Node", 2, {"label": "n2"}, {"parent": 0}],
+    ["new", "NTag", 3, {"word": "t3"}, {}],
+    ["app", 0, "tags", 3],
+    ["new", "NRef", 4, {"note": "r4"}, {"node": 1}],
+    ["new", "NOwner", 5, {"name": "o5"}, {}],
+    ["app", 5, "nodes", 2],
+    ["commit"],
+    ["touch", 0, "children"], ["touch", 1, "children"], ["touch", 2, "children"], ["touch", 0, "tags"], ["touch", 5, "nodes"],
+]
+Z2_ALPHA = [
+    ["rem", 0, "children", 1], ["del", 0], ["del", 1], ["m2o", 2, "parent", 1], ["m2o", 2, "parent", None],
+    ["rem", 0, "tags", 3], ["del", 3], ["new", "Node", None, {"label": "nx"}, {"parent": 1}], ["m2o", 4, "node", 2],
+    ["del", 4], ["rem", 5, "nodes", 2], ["del", 5], ["flush"], ["set", 1, "label", "z"],
+]
 DROP_BASE = [
     ["new", "Owner", 0, {"name": "o0"}, {}],
     ["new", "Owner", 1, {"name": "o1"}, {}],
@@ -296,7 +321,7 @@ def run(ctx):
 
         idx = 0
         maxlen = 3 if ctx.thorough else 2
-        for name, base, alpha in (("Z1", Z1_BASE, Z1_ALPHA), ("Z3", Z3_BASE, Z3_ALPHA)):
+        for name, base, alpha in (("Z1", Z1_BASE, Z1_ALPHA), ("Z3", Z3_BASE, Z3_ALPHA), ("Z2", Z2_BASE, Z2_ALPHA)):
             nnew = 4
             for L in range(1, maxlen + 1):
                 for seq in itertools.product(range(len(alpha)), repeat=L):
@@ -305,21 +330,25 @@ def run(ctx):
                         continue
                     if not ctx.budget_ok() or part_a_over():
                         break
-                    k = (ctx.shard + idx % 2) % len(KNOBS)
-                    zoo, tpl = zoos.get(k)
                     tail = [alpha[i] for i in seq]
-                    run_history(ctx, R, zoo, tpl, KNOBS[k], bool(idx % 2), lambda rig, b=base, t=tail: iter(b + t), 99)
+                    # each sequence under both zoo variants of this shard (one with, one
+                    # without tree delete cascade) and with / without FK enforcement
+                    for k in (ctx.shard % len(KNOBS), (ctx.shard + 2) % len(KNOBS)):
+                        zoo, tpl = zoos.get(k)
+                        for fk in (True, False):
+                            run_history(ctx, R, zoo, tpl, KNOBS[k], bool(idx % 2), lambda rig, b=base, t=tail: iter(b + t), 99, fk=fk)
                     ctx.count("exhaustive_small_histories")
         # quick: length-3 sequences are sampled instead of enumerated
         if ctx.quick:
             for j in range(25):
-                for name, base, alpha in (("Z1", Z1_BASE, Z1_ALPHA), ("Z3", Z3_BASE, Z3_ALPHA)):
+                for name, base, alpha in (("Z1", Z1_BASE, Z1_ALPHA), ("Z3", Z3_BASE, Z3_ALPHA), ("Z2", Z2_BASE, Z2_ALPHA)):
                     if not ctx.budget_ok() or part_a_over():
                         break
-                    k = (ctx.shard + rng.randrange(2)) % len(KNOBS)
+                    k = (ctx.shard + 2 * rng.randrange(2)) % len(KNOBS)
                     zoo, tpl = zoos.get(k)
                     tail = [rng.choice(alpha) for _ in range(3)]
-                    run_history(ctx, R, zoo, tpl, KNOBS[k], rng.random() < 0.5, lambda rig, b=base, t=tail: iter(b + t), 99)
+                    run_history(ctx, R, zoo, tpl, KNOBS[k], rng.random() < 0.5, lambda rig, b=base, t=tail: iter(b + t), 99,
+                                fk=rng.random() < 0.5)
                     ctx.count("sampled_len3_histories")
 
         # ---- directed witnesses (run on every shard 0): a pending delete-orphan child moved
@@ -337,7 +366,7 @@ def run(ctx):
         for h in range(nhist):
             if not ctx.budget_ok():
                 break
-            k = (ctx.shard + rng.randrange(2)) % len(KNOBS)   # two zoo variants per shard (build cost)
+            k = (ctx.shard + 2 * rng.randrange(2)) % len(KNOBS)   # two zoo variants per shard (build cost)
             zoo, tpl = zoos.get(k)
             fams = rng.sample(R.FAMILIES, rng.randint(1, 3))
             n = rng.randint(5, maxops)
@@ -349,7 +378,7 @@ def run(ctx):
                     if op is not None:
                         yield op
 
-            ops, kinds = run_history(ctx, R, zoo, tpl, KNOBS[k], rng.random() < 0.5, src, n)
+            ops, kinds = run_history(ctx, R, zoo, tpl, KNOBS[k], rng.random() < 0.5, src, n, fk=rng.random() < 0.6)
             ctx.count("random_histories")
             for f in fams:
                 ctx.seen("families", f)
